@@ -54,7 +54,17 @@ def arrayLengthTail (tmp : Int) (rem : Int) (off : Int) (len : Int) (maxArr : In
     else
       (tmp, nilErr, off)
 
--- fun compactArrayLengthTail: NOT TRANSLATED: call rd.remaining() is not declared in vars
+/-- generated from real_decoder.go (*realDecoder).getCompactArrayLength (fragment starting at `if n == 0`) -/
+def compactArrayLengthTail (n : Int) (rem : Int) (off : Int) (len : Int) (eInsuf : Int) (nilErr : Int) : Int × Int × Int :=
+  if (n = 0) then
+    (0, nilErr, off)
+  else
+    let length_v1 : Int := (Go.sub64 n 1)
+    if ((length_v1 < 0) ∨ (length_v1 > rem)) then
+      let off_v1 : Int := len
+      (0, eInsuf, off_v1)
+    else
+      (length_v1, nilErr, off)
 
 /-- generated from real_decoder.go (*realDecoder).getBool (fragment starting at `if err != nil || b == 0`) -/
 def getBoolTail (b : Int) (err : Int) (nilErr : Int) (eBool : Int) : Bool × Int :=
@@ -120,7 +130,13 @@ def lengthFieldCheck (cur : Int) (start : Int) (length : Int) (eLF : Int) (nilEr
   else
     nilErr
 
--- fun varintLengthFieldCheck: NOT TRANSLATED: multi-assignment _, fieldSize := binary.Varint(buf[l.startOffset:])
+/-- generated from length_field.go (*varintLengthField).check -/
+def varintLengthFieldCheck (cur : Int) (start : Int) (length : Int) (eLF : Int) (nilErr : Int) (fieldSize : Int) : Int :=
+  let fieldSize_v1 : Int := fieldSize
+  if ((fieldSize_v1 ≤ 0) ∨ ((Go.sub64 (Go.sub64 cur start) fieldSize_v1) ≠ length)) then
+    eLF
+  else
+    nilErr
 
 /-- generated from encoder_decoder.go decode (fragment starting at `if helper.off != len(buf)`) -/
 def decodeTrailing (off : Int) (len : Int) (eLen : Int) (nilErr : Int) : Int :=
@@ -151,5 +167,33 @@ def getHeaderLength (version : Int) : Int :=
     8
   else
     9
+
+/-- generated from real_decoder.go (*realDecoder).getCompactString (fragment starting at `length := int(n - 1)`) -/
+def compactStringTail (n : Int) (rem : Int) (off : Int) (len : Int) (emptyStr : Int) (str : Int) (eInvStr : Int) (eInsuf : Int) (nilErr : Int) : Int × Int × Int :=
+  let length_v1 : Int := (Go.sub64 n 1)
+  if (length_v1 < 0) then
+    (emptyStr, eInvStr, off)
+  else
+    if (length_v1 > rem) then
+      let off_v1 : Int := len
+      (emptyStr, eInsuf, off_v1)
+    else
+      let tmpStr_v1 : Int := str
+      let off_v2 : Int := (Go.add64 off length_v1)
+      (tmpStr_v1, nilErr, off_v2)
+
+/-- generated from real_decoder.go (*realDecoder).getCompactNullableString (fragment starting at `length := int(n - 1)`) -/
+def compactNullableStringTail (n : Int) (rem : Int) (off : Int) (len : Int) (err : Int) (str : Int) (ptr : Int) (eInsuf : Int) (nilv : Int) : Int × Int × Int :=
+  let length_v1 : Int := (Go.sub64 n 1)
+  if (length_v1 < 0) then
+    (nilv, err, off)
+  else
+    if (length_v1 > rem) then
+      let off_v1 : Int := len
+      (nilv, eInsuf, off_v1)
+    else
+      let tmpStr_v1 : Int := str
+      let off_v2 : Int := (Go.add64 off length_v1)
+      (ptr, err, off_v2)
 
 end Gen.C10
